@@ -1,3 +1,118 @@
 import Driver.Common
--- stub driver (not yet implemented)
-def main : IO Unit := Driver.run () (fun s _ => (s, "bad-op"))
+import SSV.Model.HttpProxy
+open SSV SSV.HttpProxy
+
+/-! Line-protocol driver for C16. Strings travel as hex of their UTF-8 bytes (`-` = empty). -/
+
+def strOfHex? (s : String) : Option Str := do
+  let bs ← ofHex? s
+  let str ← String.fromUTF8? (ByteArray.mk bs.toArray)
+  pure str.toList
+
+def hexOfStr (s : Str) : String := toHexField (String.ofList s).toUTF8.toList
+
+def splitOnChar (c : Char) (s : String) : List String :=
+  (s.split (fun x => x == c)).toList.map (·.toString)
+
+/-- `k:v,k:v` (hex) or `-`; names are canonicalised here (textproto's reading of a field line) -/
+def parseFields (s : String) : Option Header :=
+  if s == "-" then some [] else
+  (splitOnChar ',' s).mapM (fun kv =>
+    match splitOnChar ':' kv with
+    | [k, v] => do
+      let k ← strOfHex? k
+      let v ← strOfHex? v
+      pure (canonKey k, v)
+    | _ => none)
+
+def parseNames (s : String) : Option (List Str) :=
+  if s == "-" then some [] else (splitOnChar ',' s).mapM (fun k => (strOfHex? k).map canonKey)
+
+def parseToks (s : String) : Option (List Str) :=
+  if s == "-" then some [] else (splitOnChar ',' s).mapM strOfHex?
+
+def showFields (h : Header) : String :=
+  if h.isEmpty then "-" else ",".intercalate (h.map (fun f => hexOfStr f.1 ++ ":" ++ hexOfStr f.2))
+
+def bit (s : String) : Bool := s == "1"
+def b2s (b : Bool) : String := if b then "1" else "0"
+
+inductive Phase
+  | handshake
+  | forwarding (fixedHost : Str)
+  | ended
+deriving Inhabited
+
+structure Sess where
+  auth : Option (List Str) := none
+  phase : Phase := .handshake
+  pending : List Req := []
+  respStopped : Bool := false
+deriving Inhabited
+
+def onClientMsg (s : Sess) (m : ClientMsg) : Sess × String :=
+  match s.phase with
+  | .ended => (s, "dead")
+  | .handshake =>
+    match serverHandle s.auth [m] 0 with
+    | .readErr 0 => ({ s with phase := .ended }, "readerr")
+    | .readErr _ => (s, "407")
+    | .authClosed _ => ({ s with phase := .ended }, "407-closed")
+    | .connect _ _ => ({ s with phase := .ended }, "connect")
+    | .bad400 _ => ({ s with phase := .ended }, "400")
+    | .forward _ first _ =>
+      let r := filterReq first
+      ({ s with phase := .forwarding first.host, pending := [r] }, s!"fwd {showFields r.header} {showFields r.trailer}")
+  | .forwarding fixed =>
+    match accepts fixed m with
+    | some r => ({ s with pending := s.pending ++ [r] }, s!"fwd {showFields r.header} {showFields r.trailer}")
+    | none => ({ s with phase := .ended }, "end")
+
+def stepC16 (s : Sess) (line : String) : Sess × String :=
+  match fields line with
+  | ["canon", x] => match strOfHex? x with
+    | some v => (s, hexOfStr (canonKey v))
+    | none => (s, "bad-op")
+  | ["trim", x] => match strOfHex? x with
+    | some v => (s, hexOfStr (trimSpace v))
+    | none => (s, "bad-op")
+  | ["hostclass", x] => match strOfHex? x with
+    | some v => (s, match hostClass v with
+        | .empty => "empty"
+        | .hostPort80 h => s!"hp80 {hexOfStr h}"
+        | .parse p => s!"parse {hexOfStr p}")
+    | none => (s, "bad-op")
+  | ["cfg", a, toks] => match parseToks toks with
+    | some ts => ({ auth := if bit a then some ts else none }, "ok")
+    | none => (s, "bad-op")
+  | ["garbage"] => onClientMsg s .garbage
+  | ["req", m, h, cl, ok, hs, an, ts] =>
+    match strOfHex? m, strOfHex? h, parseFields hs, parseNames an, parseFields ts with
+    | some m, some h, some hs, some an, some ts =>
+      onClientMsg s (.req { method := m, host := h, close := bit cl, header := hs, announced := an, trailer := ts } (bit ok))
+    | _, _, _, _, _ => (s, "bad-op")
+  | ["badresp"] =>
+    if s.respStopped then (s, "dead")
+    else match s.pending with
+      | [] => ({ s with respStopped := true }, "unsolicited")
+      | _ => ({ s with respStopped := true }, "502")
+  | ["resp", st, cc, eof, loc, hs, an, ts] =>
+    let locHost : Option (Option Str) :=
+      if loc == "n" then some none
+      else if loc.startsWith "h" then (strOfHex? (loc.drop 1).toString).map some
+      else none
+    match st.toNat?, locHost, parseFields hs, parseNames an, parseFields ts with
+    | some st, some lh, some hs, some an, some ts =>
+      if s.respStopped then (s, "dead")
+      else match s.pending with
+        | [] => ({ s with respStopped := true }, "unsolicited")
+        | q :: qs =>
+          let p : Resp := { status := st, connClose := bit cc, bodyEOF := bit eof, header := hs, announced := an, trailer := ts, locHost := lh }
+          let (p', close) := filterResp p q
+          let final := decide (st ≥ SSV.Gen.C16.finalStatus)
+          ({ s with respStopped := close, pending := if !close && final then qs else s.pending },
+           s!"deliver {b2s close} {b2s final} {showFields p'.header} {showFields p'.trailer}")
+    | _, _, _, _, _ => (s, "bad-op")
+  | _ => (s, "bad-op")
+
+def main : IO Unit := Driver.run ({} : Sess) stepC16
